@@ -280,8 +280,9 @@ class RunLoop(W.LoopContract):
                 want = self._hist_or_now("dipole", r * d, k, mol.dipole)
                 emit("%s.data.values(dipole)" % tag, Sym(E.implies(inrange.n, E.and_(*[E.eq(E.node_of(x), y.n) for x, y in zip(dip, want)]))))
                 # thermo values: those of the velocities / potential of the same label
-                vel = self._hist_or_now("velocities", r * d, k, mol.velocities)
-                ek_want = E.uf("Ek_of", tuple(x.n for x in vel), E.R)
+                # Ek(hist[k := now](label)) with the case split lifted out of the (possibly interpreted) kinetic-energy term
+                ek_want = E.ite(E.eq(E.node_of(r * d), E.node_of(k)), ek_node([x.n for x in mol.velocities.a.reshape(-1)]),
+                                ek_node([x.n for x in hist("velocities", r * d).a.reshape(-1)]))
                 emit("%s.data.values(Ek)" % tag, Sym(E.implies(inrange.n, E.eq(E.node_of(f["data/thermo/Ek"].read(r.n)), ek_want))))
                 emit("%s.data.values(T)" % tag, Sym(E.implies(inrange.n, E.eq(E.node_of(f["data/thermo/T"].read(r.n)), E.uf("T_of", (ek_want,), E.R)))))
                 ep = self._hist_or_now("Etot", r * d, k, mol.Etot)
@@ -395,7 +396,7 @@ class RunLoop(W.LoopContract):
                 oblige("exit.%s.no-filler-rows" % s, self._cursor(w, s) == self._cap(w, s))
 
 
-def _run_config(ctx, data_on, posmask, xyz_on, print_on, ckpt_on, resume=False, on_ckpt=None, run_kwargs=None, remove_com=None):
+def _run_config(ctx, data_on, posmask, xyz_on, print_on, ckpt_on, resume=False, on_ckpt=None, run_kwargs=None, remove_com=None, ek_spec=False, replay=None, extra_pre=()):
     tgt_run = MD + ":Molecular_Dynamics_Basic.run"
     ctx.under_contract(tgt_run, loops_cut=["for i in range(self.step_offset, steps)"],
                        stubs=["_do_integrator_step", "append_vectors", "append_data", "_kinetic_energy", "_calc_temperature", "save_checkpoint", "_output_to_screen", "initialize_velocity", "esdriver", "_rotate_existing"])
@@ -442,6 +443,8 @@ def _run_config(ctx, data_on, posmask, xyz_on, print_on, ckpt_on, resume=False, 
 
         for c in pre:
             assume(c)
+        for c in extra_pre:
+            assume(c)
         disk = G.GhostDisk()
         env["disk"] = disk
         env["printed"], env["ckpts"] = [], []
@@ -478,9 +481,12 @@ def _run_config(ctx, data_on, posmask, xyz_on, print_on, ckpt_on, resume=False, 
     }
     import h5py as real_h5py
     saved = (W.sys.modules[MD].__dict__.get("h5py"), W.sys.modules[MD].__dict__.get("open", None))
+    import contracts.md_common as _mdc
     try:
+        _mdc.EK_MODEL["spec"] = bool(ek_spec)
         ex = ctx.explore(thunk, stubs=stubs, name="run", max_paths=2000)
     finally:
+        _mdc.EK_MODEL["spec"] = False
         W.sys.modules[MD].__dict__["h5py"] = real_h5py
         if saved[1] is None:
             W.sys.modules[MD].__dict__.pop("open", None)
@@ -496,7 +502,7 @@ def _run_config(ctx, data_on, posmask, xyz_on, print_on, ckpt_on, resume=False, 
     ctx.notes.append("run config data=%s vec=%s xyz=%s print=%s ckpt=%s: %d paths (%d to the back edge, %d returning), explorer %s" % (data_on, posmask, xyz_on, print_on, ckpt_on, len(ex.paths), n_ended, n_ret, ex.stats))
     ctx.cover("pre", pre)
     ctx.hubs = frozenset(["k#1", "steps", "r"])
-    ctx.discharge(ex.all_obligations(), replay=replay_resumed_cadence if resume else replay_cadence, classify=classify_cadence)
+    ctx.discharge(ex.all_obligations(), replay=replay or (replay_resumed_cadence if resume else replay_cadence), classify=classify_cadence)
     ctx.assume_note("A3 (ghost h5py / text files) as in pyvc.ghostfs; _rotate_existing assumed to find no previous files")
     ctx.assume_note("callee contracts assumed here and proved separately: append_vectors/append_data = vectors_effect/data_effect (tasks append_vectors, append_data); _do_integrator_step advances the molecule to hist(., i+1) (C08); _kinetic_energy/_calc_temperature are functions of the current velocities only (C08/C13)")
     ctx.assume_note("configuration: fresh run (step_offset = 0), molid = [0], ground state, no scale_vel / control_energy_shift / COM removal kwargs")
@@ -531,7 +537,7 @@ def _prepopulate_resume_disk(disk, env):
             dd.base = vec("data_dipole", (3,))
             assume(Sym(E.implies(inr.n, E.eq(E.node_of(gd["steps"].read(r.n)), (r * d).n))), ghost=True)
             vel = hist("velocities", r * d).a.reshape(-1)
-            ek = E.uf("Ek_of", tuple(x.n for x in vel), E.R)
+            ek = ek_node([x.n for x in vel])
             assume(Sym(E.implies(inr.n, E.eq(E.node_of(gd["thermo/Ek"].read(r.n)), ek))), ghost=True)
             assume(Sym(E.implies(inr.n, E.eq(E.node_of(gd["thermo/T"].read(r.n)), E.uf("T_of", (ek,), E.R)))), ghost=True)
             assume(Sym(E.implies(inr.n, E.eq(E.node_of(gd["thermo/Ep"].read(r.n)), hist("Etot", r * d).a[0].n))), ghost=True)
